@@ -103,6 +103,18 @@ def build_sessions(rng, n):
             tx = rsign.spending_tx(rng, [(rtx.txid(fund), 0)], nout=1, version=2, locktime=0, sequences=[0xffffffff])
             tx.vin[0][2] = ssig
             tx.wit = None
+            if rng.random() < 0.4:
+                # the redeem script is whatever the LAST operation of the scriptSig leaves on the stack - here OP_1NEGATE leaves 0x81,
+                # which as a script is OP_RIGHT (runs with --allow-disabled-opcodes: RIGHT("abc", 1) = "c")
+                ssig = push_only(b'abc') + bytes([OP_1, OP_1NEGATE])
+                spk = bytes([OP_HASH160, 20]) + hash160(b'\x81') + bytes([OP_EQUAL])
+                fund = rsign.funding_tx(rng, [(10000, spk)])
+                tx = rsign.spending_tx(rng, [(rtx.txid(fund), 0)], nout=1, version=2, locktime=0, sequences=[0xffffffff])
+                tx.vin[0][2] = ssig
+                tx.wit = None
+                S.append(dict(kind='p2sh-small-int-redeem', args=['-z', '--tx=' + rtx.ser_tx(tx).hex(), '--txin=' + rtx.ser_tx(fund).hex()],
+                              scripts=[('scriptSig', ssig), ('scriptPubKey', spk), ('P2SH script', b'\x81')], commit=0))
+                continue
             S.append(dict(kind='p2sh-empty-redeem', args=['--tx=' + rtx.ser_tx(tx).hex(), '--txin=' + rtx.ser_tx(fund).hex()],
                           scripts=[('scriptSig', ssig), ('scriptPubKey', spk), ('P2SH script', b'')], commit=0))
         else:
